@@ -40,6 +40,10 @@ CHECKS = {
    technique="exhaustive site x fault enumeration on the YAML node tree of valid configurations + property-based generation (rapid) of valid configuration files, with full synchronous instantiation as the oracle",
    text="Every node of the sample configuration and of a second hand-written one is deleted, emptied, or (scalars) replaced by 19 fault values and by every schema field name (about 15 000 mutants); rapid adds generated valid configuration files (transform grammar, byKeySet/singleton, 1-2 outputs with rewrites) with and without a random mutation. run.ParseConfigFile must return a value, never panic; every accepted file is instantiated completely - parser and extractions, pipeline transforms, serializers, chunk makers (55 records processed twice synchronously), then the real orchestrator with real hybrid buffers and a recording consumer - without panic or memory fault.",
    note="Crash signatures are normalised (innermost repository frame + masked message). buffer rootPath values and the anchors section are not mutated (not expressions). defs sizes are scaled (8 KB messages) because they only size buffers here. A mutant that is accepted and merely behaves differently is not a violation of this property."),
+ "C12": dict(engine="c12isolate", category="exploration", design="§3 C12",
+   technique="differential / metamorphic property-based testing (rapid): one long-lived pipeline versus fresh instances per record, with measured object reuse; concurrent variant under the race detector",
+   text="Generated record streams are processed on one long-lived allocator, parser, extractions, transforms and serializers (the caller's line buffer is overwritten after every call, GC is disabled during a case so that sync.Pool reuse really happens) and, record by record, on fresh instances; the serialized output of every record on every output must be identical. Runs under the sample configuration (two outputs) and generated configurations; a sixth of the cases use 2-6 goroutines with private parsers sharing one allocator, and the thorough tier repeats them under -race.",
+   note="sync.Pool reuse cannot be forced, only encouraged; the evidence reports the measured number of cases in which a LogRecord object was reused after a record with a different field pattern (pointer identity) and only those count as non-trivial. Sampled drops (documented stateful exception) are turned into 100% drops. Metric label attribution is C19's subject."),
 }
 
 NOT_YET = {}
